@@ -971,6 +971,20 @@ func (c *client) establishRegion(reg hrpc.RegionInfo, addr string) {
 				if !replaced {
 					// a region that is the same or younger is already in cache
 					reg.MarkAvailable()
+					for _, o := range overlaps {
+						if o == originalReg {
+							// ... and it's the one we are establishing, hbase:meta
+							// has given us something older. Its waiters would be
+							// back right away, so don't release them but try
+							// again after backoff.
+							replaced = true
+						}
+					}
+					if replaced {
+						reg = originalReg
+						addr = ""
+						continue
+					}
 					originalReg.MarkAvailable()
 					return
 				}
